@@ -28,11 +28,34 @@ func (f *frame) preservedHeaps(callee *ssa.Function) map[string]bool {
 		if i < 0 {
 			continue
 		}
+		// two-hop item "T.f.g": field g of the (possibly generic, possibly
+		// foreign) struct type that field T.f points to / holds, e.g.
+		// reentrancyState.requestStates.data for an *xsync.Map[K,V]. The backing
+		// obligation is the one on "<that struct's name>.g" (in its own package).
+		var hopType types.Type
+		subject := item
+		if k := strings.LastIndex(item[:i], "."); k >= 0 {
+			if ot := c.evalType(item[:k], pkg); ot != nil {
+				if ost, ok := ot.Underlying().(*types.Struct); ok {
+					for j := 0; j < ost.NumFields(); j++ {
+						if ost.Field(j).Name() == item[k+1:i] {
+							ft := deref(ost.Field(j).Type())
+							if nt, ok := ft.(*types.Named); ok {
+								if _, isSt := nt.Underlying().(*types.Struct); isSt {
+									hopType = nt
+									subject = nt.Obj().Name() + "." + item[i+1:]
+								}
+							}
+						}
+					}
+				}
+			}
+		}
 		// the structural obligation that backs this assumption
 		backed := false
 		writer := false
 		for _, st := range c.specs.Structs {
-			if st.Subject != item || (st.Kind != "mapwriters" && st.Kind != "writers") {
+			if st.Subject != subject || (st.Kind != "mapwriters" && st.Kind != "writers") {
 				continue
 			}
 			backed = true
@@ -48,7 +71,10 @@ func (f *frame) preservedHeaps(callee *ssa.Function) map[string]bool {
 		if writer {
 			continue
 		}
-		t := c.evalType(item[:i], pkg)
+		t := hopType
+		if t == nil {
+			t = c.evalType(item[:i], pkg)
+		}
 		if t == nil {
 			continue
 		}
@@ -90,7 +116,10 @@ func reachesAny(fn *ssa.Function, writers []string, seen map[*ssa.Function]bool,
 	for _, b := range fn.Blocks {
 		for _, in := range b.Instrs {
 			if ci, ok := in.(ssa.CallInstruction); ok {
-				if callee := ci.Common().StaticCallee(); callee != nil && ssaPkgOf(callee) == ssaPkgOf(fn) {
+				// (callees in other packages are followed too when their body is
+				// loaded: a field of a type from another root package is written
+				// through that package's methods)
+				if callee := ci.Common().StaticCallee(); callee != nil && (ssaPkgOf(callee) == ssaPkgOf(fn) || len(callee.Blocks) > 0) {
 					if reachesAny(callee, writers, seen, depth+1) {
 						return true
 					}
